@@ -83,12 +83,16 @@ def map_viewbox_to_font_space(
 def map_viewbox_to_otsvg_space(
     view_box: Rect, ascender: int, descender: int, width: int, user_transform: Affine2D
 ) -> Affine2D:
+    # user_transform is in font coordinates (+y up) whereas OT-SVG has +y down
+    flip_y = Affine2D(1, 0, 0, -1, 0, 0)
     return Affine2D.compose_ltr(
         [
             scale_viewbox_to_font_metrics(view_box, ascender, descender, width),
             # shift things in the [+x,-y] quadrant where OT-SVG expects them
             Affine2D(1, 0, 0, 1, 0, -ascender),
+            flip_y,
             user_transform,
+            flip_y,
         ]
     )
 
